@@ -706,11 +706,46 @@ func c19Identity(c *Ctx) {
 		c.Undecided("R19f", "appmanifest.Sign certificate parameter", p.Pos(sign.Pos()), "not found")
 		return
 	}
-	for _, name := range []string{"lib/appmanifest.setAssemblyIdentity", "lib/appmanifest.setPublisherIdentity"} {
-		cs := p.callsIn(sign, name)
-		ok := len(cs) == 1 && cs[0].Common().Args[1] == ssa.Value(cert)
-		c.Check(ok, "R19f", "appmanifest.Sign "+name+" uses the signing certificate", p.Pos(sign.Pos()), "", name+" is not called with the certificate that signs")
+	// The two identity steps are found by what they do (the publicKeyToken attribute, the
+	// PublisherIdentity computation), in Sign itself or in a helper of the package Sign calls with
+	// the certificate; certIn maps the certificate into that host.
+	hostOf := func(match func(ci ssa.CallInstruction) bool) (*ssa.Function, ssa.Value, ssa.CallInstruction) {
+		for _, ci := range callsOf(sign) {
+			if match(ci) {
+				return sign, cert, ci
+			}
+		}
+		for _, call := range callsOf(sign) {
+			h := call.Common().StaticCallee()
+			if h == nil || h.Pkg != sign.Pkg || h.Blocks == nil {
+				continue
+			}
+			for _, ci := range callsOf(h) {
+				if !match(ci) {
+					continue
+				}
+				for i, a := range call.Common().Args {
+					if a == ssa.Value(cert) && i < len(h.Params) {
+						return h, h.Params[i], ci
+					}
+				}
+				return h, nil, ci
+			}
+		}
+		return nil, nil, nil
 	}
+	tokHost, tokCert, tokAttr := hostOf(func(ci ssa.CallInstruction) bool {
+		if p.calleeName(ci.Common()) != "(*github.com/beevik/etree.Element).CreateAttr" {
+			return false
+		}
+		s, isS := constString(ci.Common().Args[1])
+		return isS && s == "publicKeyToken"
+	})
+	c.Check(tokHost != nil && tokCert != nil, "R19f", "appmanifest.Sign publicKeyToken step uses the signing certificate", p.Pos(sign.Pos()), "", "the step that writes publicKeyToken is not given the certificate that signs")
+	pubHost, pubCert, pubCall := hostOf(func(ci ssa.CallInstruction) bool {
+		return p.calleeName(ci.Common()) == "lib/appmanifest.PublisherIdentity"
+	})
+	c.Check(pubHost != nil && pubCert != nil, "R19f", "appmanifest.Sign publisherIdentity step uses the signing certificate", p.Pos(sign.Pos()), "", "the step that computes publisherIdentity is not given the certificate that signs")
 	xs := p.callsIn(sign, "lib/xmldsig.Sign")
 	okS := len(xs) == 2
 	for _, ci := range xs {
@@ -722,41 +757,24 @@ func c19Identity(c *Ctx) {
 		}
 	}
 	c.Check(okS, "R19f", "appmanifest.Sign signs both signatures with that certificate's key and chain", p.Pos(sign.Pos()), "", "a signature in the manifest is made with a key or chain that is not the one the identity fields were derived from")
-	if f := p.Func("lib/appmanifest.setAssemblyIdentity"); f != nil {
+	if f := tokHost; f != nil && tokCert != nil {
 		c.Analysed(p.FName(f))
-		ok := false
-		for _, ci := range p.callsIn(f, "lib/appmanifest.PublicKeyToken") {
-			ok = dependsOn(ci.Common().Args[0], func(x ssa.Value) bool { return x == ssa.Value(f.Params[1]) })
-		}
-		var attr ssa.CallInstruction
-		for _, ci := range p.callsIn(f, "(*github.com/beevik/etree.Element).CreateAttr") {
-			if s, isS := constString(ci.Common().Args[1]); isS && s == "publicKeyToken" {
-				attr = ci
-			}
-		}
-		if attr != nil && ok {
-			call, idx := resultOf(attr.Common().Args[2])
-			ok = call != nil && idx == 0 && p.calleeName(call.Common()) == "lib/appmanifest.PublicKeyToken"
-		} else {
-			ok = false
-		}
+		attr := tokAttr
+		call, idx := resultOf(attr.Common().Args[2])
+		ok := call != nil && idx == 0 && p.calleeName(call.Common()) == "lib/appmanifest.PublicKeyToken" &&
+			dependsOn(call.Common().Args[0], func(x ssa.Value) bool { return x == tokCert })
 		c.Check(ok, "R19f", "publicKeyToken is computed from the certificate's public key", p.Pos(f.Pos()), "", "the publicKeyToken attribute is not PublicKeyToken(cert.Leaf.PublicKey) of the signing certificate")
-		if attr != nil {
-			okAll := true
-			for _, r := range p.successReturns(f) {
-				if avoidable(f, attr, r) {
-					okAll = false
-				}
+		okAll := true
+		for _, r := range p.successReturns(f) {
+			if avoidable(f, attr, r) {
+				okAll = false
 			}
-			c.Check(okAll, "R19f", "publicKeyToken is written on every success path", p.Pos(attr.Pos()), "", "setAssemblyIdentity can return successfully without writing the signing key's token: a manifest that already carries another key's token keeps it, and the signed identity names a key that did not sign")
 		}
+		c.Check(okAll, "R19f", "publicKeyToken is written on every success path", p.Pos(attr.Pos()), "", p.FName(f)+" can return successfully without writing the signing key's token: a manifest that already carries another key's token keeps it, and the signed identity names a key that did not sign")
 	}
-	if f := p.Func("lib/appmanifest.setPublisherIdentity"); f != nil {
+	if f := pubHost; f != nil && pubCert != nil {
 		c.Analysed(p.FName(f))
-		ok := false
-		for _, ci := range p.callsIn(f, "lib/appmanifest.PublisherIdentity") {
-			ok = ci.Common().Args[0] == ssa.Value(f.Params[1])
-		}
+		ok := pubCall.Common().Args[0] == pubCert
 		c.Check(ok, "R19f", "publisherIdentity is computed from the signing certificate", p.Pos(f.Pos()), "", "publisherIdentity is not derived from the signing certificate")
 		var rm ssa.CallInstruction
 		for _, ci := range p.callsIn(f, "lib/xmldsig.RemoveElements") {
@@ -765,6 +783,9 @@ func c19Identity(c *Ctx) {
 		nAttr := 0
 		okAll := rm != nil
 		for _, ci := range p.callsIn(f, "(*github.com/beevik/etree.Element).CreateAttr") {
+			if s, isS := constString(ci.Common().Args[1]); isS && s == "publicKeyToken" {
+				continue
+			}
 			nAttr++
 			for _, r := range p.successReturns(f) {
 				if avoidable(f, ci, r) || (rm != nil && avoidable(f, rm, r)) {
@@ -772,7 +793,7 @@ func c19Identity(c *Ctx) {
 				}
 			}
 		}
-		c.Check(okAll && nAttr == 2, "R19f", "publisherIdentity is replaced on every success path", p.Pos(f.Pos()), "", "setPublisherIdentity can succeed without replacing an existing publisherIdentity (old element removed, name and issuerKeyHash written)")
+		c.Check(okAll && nAttr == 2, "R19f", "publisherIdentity is replaced on every success path", p.Pos(f.Pos()), "", p.FName(f)+" can succeed without replacing an existing publisherIdentity (old element removed, name and issuerKeyHash written)")
 	}
 	// VSIX
 	for _, fn := range p.pkgFuncs("signers/vsix") {
